@@ -24,12 +24,14 @@ var c09ReqHdrs = []map[string]string{{}, {"X-K": "v"}, {"X-K": "w"}, {"X-K": ""}
 	// a header sent in several fields (the values are separated by 0x1f here): the first field is the one http.Header.Get reports
 	{"X-K": "v\x1fw"}, {"X-K": "w\x1fv"}, {"X-K": "\x1f"},
 	// two constrained headers whose expressions disagree on each other's values, straight and crossed
-	{"X-K": "v", "Y-K": "w"}, {"X-K": "w", "Y-K": "v"}, {"X-K": "vw"}}
+	{"X-K": "v", "Y-K": "w"}, {"X-K": "w", "Y-K": "v"}, {"X-K": "vw"}, {"X-K": "V"}, {"X-K": "7"}}
 
 // c09HdrSetsRespec: the constraint sets of the re-specification histories (more than the BFS alphabet)
 var c09HdrSetsRespec = append(append([][]string{}, c09HdrSets...), []string{"X-K", "^v$", "Y-K", "^w$"},
 	// one header constrained twice, under two spellings of its name: both expressions gate the route
 	[]string{"x-k", "^v", "X-K", "w$"},
+	// expressions that differ from earlier ones in the case of a letter only (^v$ / ^V$, \d / \D)
+	[]string{"X-K", "^V$"}, []string{"X-K", "^\\D$"},
 	// a call that is refused (the second expression does not compile): the set given before stays as it was
 	[]string{"Y-K", "b", "X-K", "("})
 var c09Paths = []string{"/s", "/o", "/o/t", "/o/u", "/d/v", "/e", "/e/v", "/zz", "/o/", "//s", "/d/v/w", "/o/t/u", "/", "/r"}
@@ -343,7 +345,7 @@ func c09Run(r *core.Run) {
 	r.SetBudget(70 * time.Second)
 	if r.Thorough() {
 		depth = 4
-		r.SetBudget(10 * time.Minute)
+		r.SetBudget(20 * time.Minute)
 	}
 	r.Rule = fmt.Sprintf("engine B: BFS over histories of Reg(route,api) and Headers(i,set) on a fresh Flame (state = shortest history, successor = replay + one op; key = registrations in order with their current constraint sets); after every transition the full probe set (%d methods x %d paths x %d request header sets, each served three times; for histories of one and three operations also interleaved with the operations) is served", len(c09Methods), len(c09Paths), len(c09ReqHdrs)) + " and compared with the documented priority restricted to eligible registrations; a state reached again by another history must answer the probe set identically; non-trivial = probe served while at least one registration carries constraints"
 	r.Bounds["depth"] = depth
